@@ -452,23 +452,39 @@ func checkInNotIn(c *core.Ctx, t *fnTable, ids map[string]int64) {
 			}
 			key := fmt.Sprintf("functions.%s(%s)", name, coll)
 			in := &absint.Interp{Info: t.info, Prog: c.Prog}
+			// reference automaton over the elements seen so far: "" none relevant, "N" a NULL element, "hit" an equal
+			// element, "hit!" anything after an equal element
 			in.Hooks.Loop = func(st *absint.State, loop ast.Stmt) *absint.LoopSpec {
-				return &absint.LoopSpec{Cases: []string{"hit", "miss"}, RefStep: func(ref, cs string) string {
-					if ref == "hit" {
+				return &absint.LoopSpec{Cases: []string{"hit", "miss", "null"}, RefStep: func(ref, cs string) string {
+					if strings.HasPrefix(ref, "hit") {
 						return "hit!"
 					}
 					if cs == "hit" {
 						return "hit"
 					}
+					if cs == "null" {
+						return "N"
+					}
 					return ref
 				}}
+			}
+			elemPrefix := "values[1]." + payloadOf[coll] + "["
+			in.Hooks.Field = func(st *absint.State, base absint.Val, sel string) (absint.Val, bool) {
+				if sel == "TypeID" && strings.HasPrefix(base.Canon(), elemPrefix) {
+					if st.IterNow == "null" {
+						return absint.Int(ids["TypeIDNull"]), true
+					}
+					return absint.Int(ids["TypeIDInt"]), true
+				}
+				return nil, false
 			}
 			in.Hooks.Call = chainCall(func(st *absint.State, call *ast.CallExpr, callee string, recv absint.Val, args []absint.Val) (absint.Val, bool) {
 				if callee == "octosql.Value.Equal" {
 					a, b := recv.Canon(), args[0].Canon()
-					if !(a == "values[0]" && strings.HasPrefix(b, "values[1]."+payloadOf[coll]+"[")) && !(b == "values[0]" && strings.HasPrefix(a, "values[1]."+payloadOf[coll]+"[")) {
+					if !(a == "values[0]" && strings.HasPrefix(b, elemPrefix)) && !(b == "values[0]" && strings.HasPrefix(a, elemPrefix)) {
 						st.Emit("WRONG-OPERANDS "+a+" vs "+b, call.Pos())
 					}
+					// a NULL element equals nothing (Value.Equal); the left operand is not NULL (strict function)
 					return absint.Bool(st.IterNow == "hit"), true
 				}
 				return nil, false
@@ -489,18 +505,24 @@ func checkInNotIn(c *core.Ctx, t *fnTable, ids map[string]int64) {
 					continue
 				}
 				cls := valueClass(o, ids, o.Values[0])
-				found := strings.HasPrefix(o.Ref, "hit")
+				ref := strings.TrimPrefix(o.Ref, "exit:")
+				found := strings.HasPrefix(ref, "hit")
 				want := map[bool]string{true: "TRUE", false: "FALSE"}[found == (name == "in")]
+				if !found && ref == "N" {
+					want = "NULL" // x = NULL is unknown: without an equal element the membership is unknown
+				}
 				switch {
-				case o.Ref == "hit!" || strings.HasSuffix(o.Ref, "hit!"):
+				case strings.HasSuffix(o.Ref, "hit!"):
 					bad = "the scan continues after a hit: " + o.String()
-				case o.Ref == "" || o.Ref == "exit:hit":
-					bad = "returns before a hit with elements left, or ends the scan normally after a hit: " + o.String()
+				case !strings.HasPrefix(o.Ref, "exit:") && !found:
+					bad = "returns without a hit with elements left: " + o.String()
+				case o.Ref == "exit:hit":
+					bad = "ends the scan normally after a hit: " + o.String()
 				case cls != want:
-					bad = fmt.Sprintf("%s with element found=%v must be %s, got %s", name, found, want, cls)
+					bad = fmt.Sprintf("%s with an equal element found=%v, a NULL element met=%v must be %s, got %s", name, found, ref == "N", want, cls)
 				}
 			}
-			c.Decide(bad == "" && len(outs) >= 2, "IN", key, d.Function.Pos(), len(outs), "TRUE/FALSE by membership under Equal", bad)
+			c.Decide(bad == "" && len(outs) >= 2, "IN", key, d.Function.Pos(), len(outs), "TRUE/FALSE by membership under Equal, NULL when only a NULL element could have matched", bad)
 		}
 		if n < 2 {
 			c.Unknown("IN", "functions."+name, 0, "expected List and Tuple overloads")
